@@ -100,6 +100,8 @@ def generate(seed, tier):
     allow.append("latin1")
     if paren:
         allow.append("paren")
+    if "export" not in fmts and "terminals" not in fmts and all(e != "latin-1" for e in encs):
+        allow.append("uspace")
     continuous = src_fmt == "brackets"
     k = model.swarm_knobs(rng, tier, allow=allow, continuous=continuous)
     dirmode = rng.random() < 0.2
